@@ -475,110 +475,6 @@ val matrix_of : sexp -> matrix option
 
 val run1 : sexp -> sexp
 
-val is_ws : ascii -> bool
-
-val is_dimc : ascii -> bool
-
-val strip_prefix : string -> string -> string option
-
-val span : (ascii -> bool) -> string -> string * string
-
-val tok_open : string
-
-val tok_close : string
-
-val tok_word : string
-
-val match_tail : string -> nat option
-
-val match_token : string -> (string * nat) option
-
-val scan : (string -> string option) -> string -> nat -> string * string list
-
-val transform : (string -> string option) -> string -> string * string list
-
-val transform_result : (string -> string option) -> string -> string option
-
-val repl_of_perm : (string * string) list -> string -> string option
-
-val pair_of0 : sexp -> string * string
-
-val run2 : sexp -> sexp
-
-type sentinel =
-| ErrUnknownStepType
-| ErrStepTypeInference
-
-type kind =
-| KCommand
-| KWait
-| KInput
-| KTrigger
-| KGroup
-| KUnknown of sentinel
-
-val mem : string -> string list -> bool
-
-val families : (string list * kind) list
-
-val type_table : (string list * kind) list
-
-val scalar_table : (string list * kind) list
-
-val by_label : (string list * kind) list -> string -> kind -> kind
-
-val by_keys : (string list * kind) list -> string list -> kind -> kind
-
-val kind_by_type : string -> kind
-
-val kind_by_keys : string list -> kind
-
-val kind_of_scalar : string -> kind
-
-val kind_of_map : string option -> string list -> kind
-
-val kind_name : kind -> string
-
-val run3 : sexp -> sexp
-
-type keyinfo = { k_valid : bool; k_has_alg : bool; k_is_sig : bool;
-                 k_alg : string; k_kty : string }
-
-type verr =
-| EInvalidKey
-| EMissingAlg
-| EInvalidSigningAlg
-| EUnsupportedSigningAlg
-| EUnsupportedKeyType
-| EUnsupportedAlgForKeyType
-
-val valid_algs_for_kty : (string * string list) list
-
-val valid_signing_algs : string list
-
-val valid_ktys : string list
-
-val mem0 : string -> string list -> bool
-
-val lookup : string -> (string * string list) list -> string list
-
-val validate0 : keyinfo -> verr option
-
-type keyset = (string * keyinfo) list
-
-type lerr =
-| LNoKeyID
-| LNotFound
-| LInvalid of verr
-
-val find_kid : string -> nat -> keyset -> (nat * keyinfo) option
-
-val load : keyset -> string -> (nat * keyinfo, lerr) sum
-
-val key_of : sexp -> keyinfo
-
-val run4 : sexp -> sexp
-
 type gv =
 | GNull
 | GBool of bool
@@ -680,6 +576,40 @@ val assign_fields :
 val partition_keys : field_row list -> (string * gv) list -> partition
 
 val assigned_to : string -> ((field_row * string) * gv) list -> gv option
+
+type sentinel =
+| ErrUnknownStepType
+| ErrStepTypeInference
+
+type kind =
+| KCommand
+| KWait
+| KInput
+| KTrigger
+| KGroup
+| KUnknown of sentinel
+
+val mem : string -> string list -> bool
+
+val families : (string list * kind) list
+
+val type_table : (string list * kind) list
+
+val scalar_table : (string list * kind) list
+
+val by_label : (string list * kind) list -> string -> kind -> kind
+
+val by_keys : (string list * kind) list -> string list -> kind -> kind
+
+val kind_by_type : string -> kind
+
+val kind_by_keys : string list -> kind
+
+val kind_of_scalar : string -> kind
+
+val kind_of_map : string option -> string list -> kind
+
+val kind_name : kind -> string
 
 type 't res =
 | Ok of 't * nat
@@ -830,6 +760,136 @@ val step_ok : step0 -> bool
 val pipeline_ok : pipeline -> bool
 
 val marshal_json : pipeline -> json option
+
+val is_ws : ascii -> bool
+
+val is_dimc : ascii -> bool
+
+val strip_prefix : string -> string -> string option
+
+val span : (ascii -> bool) -> string -> string * string
+
+val tok_open : string
+
+val tok_close : string
+
+val tok_word : string
+
+val match_tail : string -> nat option
+
+val match_token : string -> (string * nat) option
+
+val scan : (string -> string option) -> string -> nat -> string * string list
+
+val transform : (string -> string option) -> string -> string * string list
+
+val transform_result : (string -> string option) -> string -> string option
+
+val repl_of_perm : (string * string) list -> string -> string option
+
+val omapM : ('a1 -> 'a2 option) -> 'a1 list -> 'a2 list option
+
+val orename :
+  nat -> (string * 'a1) list -> ((string * string) * 'a1) list ->
+  (string * 'a1) list
+
+val urename : ((string * string) * 'a1) list -> (string * 'a1) list
+
+val interp_gv : (string -> string option) -> gv -> gv option
+
+val interp_umap :
+  (string -> string option) -> ('a1 -> 'a1 option) -> (string * 'a1) list ->
+  (string * 'a1) list option
+
+val interp_rem :
+  (string -> string option) -> (string * gv) list -> (string * gv) list option
+
+val interp_strs :
+  (string -> string option) -> string list -> string list option
+
+val interp_plugin : (string -> string option) -> plugin -> plugin option
+
+val interp_adj :
+  (string -> string option) -> madj0 option -> madj0 option option
+
+val interp_matrix : (string -> string option) -> matrix0 -> matrix0 option
+
+val interp_cache : (string -> string option) -> cache -> cache option
+
+val opt_interp : ('a1 -> 'a1 option) -> 'a1 option -> 'a1 option option
+
+val interp_command :
+  (string -> string option) -> command_step -> command_step option
+
+val interp_map_values :
+  (string -> string option) -> (string * string) list -> (string * string)
+  list option
+
+val minterp_command :
+  (string -> string option) -> command_step -> command_step option
+
+val interp_step : (string -> string option) -> step0 -> step0 option
+
+val interp_pipeline_rest :
+  (string -> string option) -> pipeline -> pipeline option
+
+val skip_class : gv -> skipval
+
+val to_vmatrix : matrix0 -> matrix
+
+type mresult =
+| MOk of command_step
+| MRejected
+| MUnknownToken
+
+val interpolate_matrix_permutation :
+  command_step -> (string * string) list -> mresult
+
+val pair_of0 : sexp -> string * string
+
+val run2 : sexp -> sexp
+
+val run_step : sexp -> sexp
+
+val run3 : sexp -> sexp
+
+type keyinfo = { k_valid : bool; k_has_alg : bool; k_is_sig : bool;
+                 k_alg : string; k_kty : string }
+
+type verr =
+| EInvalidKey
+| EMissingAlg
+| EInvalidSigningAlg
+| EUnsupportedSigningAlg
+| EUnsupportedKeyType
+| EUnsupportedAlgForKeyType
+
+val valid_algs_for_kty : (string * string list) list
+
+val valid_signing_algs : string list
+
+val valid_ktys : string list
+
+val mem0 : string -> string list -> bool
+
+val lookup : string -> (string * string list) list -> string list
+
+val validate0 : keyinfo -> verr option
+
+type keyset = (string * keyinfo) list
+
+type lerr =
+| LNoKeyID
+| LNotFound
+| LInvalid of verr
+
+val find_kid : string -> nat -> keyset -> (nat * keyinfo) option
+
+val load : keyset -> string -> (nat * keyinfo, lerr) sum
+
+val key_of : sexp -> keyinfo
+
+val run4 : sexp -> sexp
 
 val all_digits : string -> bool
 
@@ -1048,45 +1108,6 @@ val lookup0 : (string * string) list -> string -> string option
 val expand_go : nat -> (string * string) list -> string -> string option
 
 val expand_simple : (string * string) list -> string -> string option
-
-val omapM : ('a1 -> 'a2 option) -> 'a1 list -> 'a2 list option
-
-val orename :
-  nat -> (string * 'a1) list -> ((string * string) * 'a1) list ->
-  (string * 'a1) list
-
-val urename : ((string * string) * 'a1) list -> (string * 'a1) list
-
-val interp_gv : (string -> string option) -> gv -> gv option
-
-val interp_umap :
-  (string -> string option) -> ('a1 -> 'a1 option) -> (string * 'a1) list ->
-  (string * 'a1) list option
-
-val interp_rem :
-  (string -> string option) -> (string * gv) list -> (string * gv) list option
-
-val interp_strs :
-  (string -> string option) -> string list -> string list option
-
-val interp_plugin : (string -> string option) -> plugin -> plugin option
-
-val interp_adj :
-  (string -> string option) -> madj0 option -> madj0 option option
-
-val interp_matrix : (string -> string option) -> matrix0 -> matrix0 option
-
-val interp_cache : (string -> string option) -> cache -> cache option
-
-val opt_interp : ('a1 -> 'a1 option) -> 'a1 option -> 'a1 option option
-
-val interp_command :
-  (string -> string option) -> command_step -> command_step option
-
-val interp_step : (string -> string option) -> step0 -> step0 option
-
-val interp_pipeline_rest :
-  (string -> string option) -> pipeline -> pipeline option
 
 val interpolate_pipeline :
   bool -> (string * string) list -> pipeline -> (pipeline * (string * string)
